@@ -41,6 +41,9 @@ CONSTANTS
     FixCross,    \* TRUE: model of the code with fixes/F12 applied
     Win,         \* channel window in data units (one unit = one maximum packet);
                  \*   0: flow control not modelled (window never exhausted)
+    CreditDropped, \* TRUE: model of the code with fixes/C20_close_pending_window_deadlock
+                 \*   (data dropped by a close_pending channel is given back to the
+                 \*   peer's window)
     AdjustOnlyOpen, \* sensitivity: WINDOW_ADJUST refused once the peer's EOF arrived
     FlowBias,    \* generation only: ends close / reset only after MaxW units were
                  \*   written in total (more behaviours with data in flight)
@@ -163,7 +166,9 @@ AppDeliver(s, e, ds) ==
 \* after the local close is dropped unaccounted; otherwise the receive
 \* window shrinks and is refilled once less than half of it is left
 RecvData(s, x, ds) ==
-    IF s.ch[x].s \in {"closep", "closed"} \/ s.pair[x] \notin {"up", "zombie"} THEN s
+    IF s.ch[x].s \in {"closep", "closed"} \/ s.pair[x] \notin {"up", "zombie"}
+    THEN IF CreditDropped /\ Win > 0 /\ s.ch[x].s = "closep"
+         THEN Send(s, x, Msg("adjust", <<Len(ds)>>)) ELSE s
     ELSE LET r == s.rwin[x] - Len(ds)
              s1 == IF Win > 0 /\ 2 * r < Win
                    THEN Send([s EXCEPT !.rwin[x] = Win], x, Msg("adjust", <<Win - r>>))
